@@ -141,6 +141,16 @@ func decode(encoded encodedMessage) (messageWithHeader, error) {
 }
 
 func (c *Conversation) receiveDecoded(message messageWithHeader) (plain MessagePlaintext, toSend []messageWithHeader, err error) {
+	if c.version == nil {
+		// a message that ends up rejected or ignored must not decide the protocol version
+		defer func() {
+			if plain == nil && len(toSend) == 0 {
+				c.version = nil
+				c.ourCurrentKey = nil
+			}
+		}()
+	}
+
 	if err = c.checkVersion(message); err != nil {
 		return
 	}
